@@ -770,6 +770,21 @@ fn one(runner: &Runner, seed: u64, i: usize, per_project: usize, sweep_class: Op
                 }
             }
         }
+        // a second named file whose name differs from the failing one's in letter case only,
+        // given after it (so parsed before it)
+        if in_content && r.chance(1, 8) {
+            let target = pl.where_ok.first().cloned().unwrap_or_default();
+            if pl.case.argv.iter().any(|a| a == &target) && !target.contains('/') {
+                let twin: String = target.chars().enumerate().map(|(k, c)| if k == 0 { if c.is_uppercase() { c.to_lowercase().next().unwrap_or(c) } else { c.to_uppercase().next().unwrap_or(c) } } else { c }).collect();
+                if twin != target && !pl.case.world.files.contains_key(&twin) {
+                    pl.case.world.put(&twin, "pragma circom 2.0.0;\ntemplate CaseTwinQ() { signal input a; signal output b; b <== a; }\n");
+                    pl.case.argv.push(twin.clone());
+                    pl.named.push(twin.clone());
+                    pl.where_ok.push(twin);
+                    pl.detail.push_str(" [next to a named file whose name differs in case only]");
+                }
+            }
+        }
         // stdout itself may be dead (full disk, reader gone). Nothing can be displayed then,
         // but the exit status is still there to say that the input was not analysed
         let stdout_dead = r.chance(1, 12) && pl.case.plan.faults.is_empty();
